@@ -105,15 +105,16 @@ func runResegmenterCase(c *runner.Ctx, idx int, cs caseSpec) {
 		}
 	} else {
 		hostile := c.Rand.Chance(1, 6)
-		in := makeFragInput(c, fragGenOptions{allowGap: true, allowNoStyp: true, hostile: hostile}, c.Rand.Chance(1, 5))
+		in := makeFragInput(c, fragGenOptions{tool: "resegmenter", allowGap: true, allowNoStyp: true, hostile: hostile}, c.Rand.Chance(1, 5))
 		if in == nil {
 			return
 		}
+		in.census(c, "resegmenter")
 		c.Seen("resegmenter_input_values", fmt.Sprintf("hostile=%v", hostile))
-		data, want, name, gopDur, total, gapped = in.built.Bytes, in.want, in.label, in.gopDur, in.total, in.gapped
+		data, want, name, gopDur, total, gapped = in.all, in.want, in.label, in.gopDur, in.total, in.gapped
 		cls = "generated"
-		c.Seen("resegmenter_input", fmt.Sprintf("%s gapped=%v styp=%v", want.Kind, gapped, in.h.Segments[0].Styp))
-		c.Seen("resegmenter_input_layout", fmt.Sprintf("segs=%s optimize=%v", sizeClass(len(in.h.Segments)), in.h.Optimize))
+		c.Seen("resegmenter_input", fmt.Sprintf("%s gapped=%v styp=%v", want.Kind, gapped, in.styp))
+		c.Seen("resegmenter_input_layout", fmt.Sprintf("segs=%s %s", sizeClass(in.nsegs), in.writer()))
 	}
 	dir := filepath.Join(c.Env.Scratch, fmt.Sprintf("reseg-%d", idx))
 	if err := os.MkdirAll(dir, 0o755); err != nil {
@@ -252,11 +253,12 @@ func runFragmentifyCase(c *runner.Ctx, idx int, cs caseSpec) {
 		}
 	} else {
 		hostile := c.Rand.Chance(1, 4)
-		in := makeFragInput(c, fragGenOptions{allowGap: true, hostile: hostile}, c.Rand.Chance(1, 4))
+		in := makeFragInput(c, fragGenOptions{tool: "fragmentify", allowGap: true, hostile: hostile}, c.Rand.Chance(1, 4))
 		if in == nil {
 			return
 		}
-		data, initBytes, want, name, gopDur, total = in.built.Bytes, in.built.InitBytes, in.want, in.label, in.gopDur, in.total
+		in.census(c, "fragmentify")
+		data, initBytes, want, name, gopDur, total = in.all, in.initBytes, in.want, in.label, in.gopDur, in.total
 		if in.gapped {
 			mode = "gapped-input"
 		}
@@ -264,7 +266,7 @@ func runFragmentifyCase(c *runner.Ctx, idx int, cs caseSpec) {
 			mode += "-hostile-values"
 		}
 		c.Seen("fragmentify_input", fmt.Sprintf("%s %s", want.Kind, mode))
-		c.Seen("fragmentify_input_layout", fmt.Sprintf("segs=%s optimize=%v", sizeClass(len(in.h.Segments)), in.h.Optimize))
+		c.Seen("fragmentify_input_layout", fmt.Sprintf("segs=%s %s", sizeClass(in.nsegs), in.writer()))
 	}
 	durs := pickDurations(c.Rand, tickDurations(c.Rand, want, gopDur, total), fragifyPerCase)
 	durs[0] = tickDur{0, "zero"}
